@@ -423,9 +423,12 @@ func (s *pState) flush(cw *cwriter.Writer, height int, iter <-chan *Bar) error {
 			}
 			continue
 		}
+		// bar which is about to pop out is shown regardless of height: its
+		// rows aren't part of the next frame, i.e. free to scroll off the screen
+		popping := frame.shutdown == 2 && s.popCompleted && !frame.noPop
 		var usedRows int
 		for i := len(frame.rows) - 1; i >= 0; i-- {
-			if row := frame.rows[i]; len(rows) < height {
+			if row := frame.rows[i]; popping || len(rows) < height {
 				rows = append(rows, row)
 				usedRows++
 			} else {
